@@ -72,6 +72,13 @@ class History:
             self.g.set_resolution(rng.choice([0.5, 1.0, 2.0, 5.0]))
             if rng.random() < 0.5:
                 self.g.set_direction(rng.choice(["cw", "ccw"]))
+            if rng.random() < 0.3:
+                # a working envelope: moves, axis resets and shapes that leave it are refused, and a
+                # refused call must not move the position the builder reports
+                half = rng.choice([40.0, 90.0, 250.0])
+                self.g.set_bounds("axes", (-half, -half, -half), (half, half, half))
+                self.flags.add("axes-bounds")
+                col.count("histories_with_axes_bounds")
 
     # -- gcoder observer ------------------------------------------------
     def feed_gcoder(self, lines):
